@@ -127,8 +127,12 @@ impl<G: GroupApi> GroupSubject<G> {
     }
 
     pub fn insert_known(&mut self) {
-        let home = self.home;
         let (id, m) = self.new_member(false);
+        self.insert_member(id, m);
+    }
+
+    pub fn insert_member(&mut self, id: u32, m: G::Member) {
+        let home = self.home;
         let live_before: Vec<u16> = with(|w| w.combs[0].children.iter().filter(|&&c| c != id && w.children[c as usize].role_tag != TAG_UNKNOWN_SLOT).map(|&c| w.children[c as usize].slot).collect());
         let k = self.g.as_mut().unwrap().g_insert(m);
         let slot = self.slot_of(k);
@@ -312,16 +316,44 @@ fn mk_str(id: u32) -> SNode {
     SNode::Leaf(SLeaf { id })
 }
 
-fn setup<G: GroupApi + 'static>(item: &PItem, g: G, is_stream: bool, mk: fn(u32) -> G::Member, iter_members: usize) {
+fn setup<G: GroupApi + 'static>(item: &PItem, g: G, is_stream: bool, mk: fn(u32) -> G::Member, iter_members: usize, nested: Option<(u32, G::Member)>) {
     let home = if is_stream { 12 } else { 11 };
     let mm = item.u("mm", 3);
     let specs: Vec<Spec> = (0..mm.max(8)).map(|i| spec_for(item, i)).collect();
     let mut s = GroupSubject { g: Some(g), home, is_stream, keys: Vec::new(), made: iter_members, max_members: mm, rm: item.u("rm", 1) != 0, rs: item.u("rs", 0) != 0, ext: item.u("ext", 0) != 0, specs, mk };
+    if let Some((id, m)) = nested {
+        // one member is itself a combinator (one level of nesting)
+        s.insert_member(id, m);
+    }
     for _ in 0..item.u("init", 0) {
         s.insert_known();
     }
     s.view_check("after construction");
     run(Box::new(s));
+}
+
+fn nested_fut(item: &PItem) -> Option<(u32, Node)> {
+    let nest = item.s("nest");
+    if nest.is_empty() {
+        return None;
+    }
+    let ifam = crate::futs::fam_of(nest);
+    let child = with(|w| w.new_child(0, 0, false, true, Spec::default()));
+    let k2 = with(|w| w.new_comb(ifam, child, crate::futs::selective(ifam), crate::futs::concurrent(ifam), home_of(ifam)));
+    let inner = crate::futs::build(item, ifam, item.s("ncont"), item.u("nin", 2), k2, 1);
+    Some((child, Node::Inner(NestFut(Nest { child, comb: k2, inner: Some(inner) }))))
+}
+
+fn nested_str(item: &PItem) -> Option<(u32, SNode)> {
+    let nest = item.s("nest");
+    if nest.is_empty() {
+        return None;
+    }
+    let ifam = crate::strs::fam_of(nest);
+    let child = with(|w| w.new_child(0, 0, true, true, Spec::default()));
+    let k2 = with(|w| w.new_comb(ifam, child, crate::strs::selective(ifam), crate::strs::concurrent(ifam), home_of(ifam)));
+    let inner = crate::strs::build(item, ifam, item.s("ncont"), item.u("nin", 2), k2, 1);
+    Some((child, SNode::Inner(NestStr { child, comb: k2, inner: Some(inner) })))
 }
 
 pub fn runner(item: &PItem) {
@@ -354,10 +386,11 @@ pub fn runner(item: &PItem) {
         } else {
             FutureGroup::with_capacity(cap)
         };
+        let nested = nested_fut(item);
         if keyed {
-            setup(item, g.keyed(), false, mk_fut, iter_n);
+            setup(item, g.keyed(), false, mk_fut, iter_n, nested);
         } else {
-            setup(item, g, false, mk_fut, iter_n);
+            setup(item, g, false, mk_fut, iter_n, nested);
         }
     } else {
         let g: StreamGroup<SNode> = if iter_n > 0 {
@@ -377,10 +410,11 @@ pub fn runner(item: &PItem) {
         } else {
             StreamGroup::with_capacity(cap)
         };
+        let nested = nested_str(item);
         if keyed {
-            setup(item, g.keyed(), true, mk_str, iter_n);
+            setup(item, g.keyed(), true, mk_str, iter_n, nested);
         } else {
-            setup(item, g, true, mk_str, iter_n);
+            setup(item, g, true, mk_str, iter_n, nested);
         }
     }
 }
